@@ -46,21 +46,57 @@ Definition dec_gop (code a1 a2 a3 : N) : option gop :=
   | 3 => Some (GReadFrom a1 a2 a3) | 4 => Some (GRead a1 a2) | 5 => Some (GLoad a1 a2)
   | _ => None end.
 
-Definition dec_step (l : list N) : option step :=
+(* region-layer op codes (step kind 6): the slice-level codes that exist on Bytes<MemoryRegionAddress>, plus
+   21 = write_obj::<T> (Bytes default: write_slice(val.as_slice(), addr)), 22 = read_obj::<T> (read_slice) *)
+Definition dec_region_sop (code a1 a2 a3 a4 : N) : option sop :=
+  match code with
+  | 21 => Some (OWriteSlice a1 a2) | 22 => Some (OReadSlice a1 a2)
+  | 3 | 10 | 13 | 14 | 15 | 16 | 17 | 18 => None
+  | _ => dec_sop code a1 a2 a3 a4 end.
+
+(* root kinds of step kinds 5 and 7: 0 region.as_volatile_slice(), 1 MmapRegion::get_slice(x, y) (through Deref),
+   2 GuestRegionMmap::get_slice(MemoryRegionAddress(x), y), 4 MmapRegion::get_ref::<T>(x) (size_of T = y),
+   5 MmapRegion::get_array_ref::<T>(x, z) (size_of T = y); kind 3 = gm.get_slice(GuestAddress(x), y) is XGm *)
+Definition dec_rootk (rk x y z : N) : option rootk :=
+  match rk with
+  | 0 => Some RWhole | 1 => Some (RMapSlice x y) | 2 => Some (RRegSlice x y)
+  | 4 => Some (RMapRef x y) | 5 => Some (RMapArr x y z)
+  | _ => None end.
+
+Definition dec_step (l : list N) : option xstep :=
   match l with
   | 0 :: ri :: code :: a1 :: a2 :: a3 :: a4 :: nch :: r =>
       if (64 <? ri) || (64 <? nch) then None else
       match dec_sop code a1 a2 a3 a4, dec_chain (S (length r)) nch r with
-      | Some o, Some ch => Some (SAcc (N.to_nat ri) ch o)
+      | Some o, Some ch => Some (XBase (SAcc (N.to_nat ri) ch o))
       | _, _ => None end
-  | [1; code; a1; a2; a3] => match dec_gop code a1 a2 a3 with Some o => Some (SGuest o) | None => None end
-  | [2; ri] => if 64 <? ri then None else Some (SReset (N.to_nat ri))
-  | [3; ri; off; len] => if 64 <? ri then None else Some (SResetRange (N.to_nat ri) off len)
+  | [1; code; a1; a2; a3] => match dec_gop code a1 a2 a3 with Some o => Some (XBase (SGuest o)) | None => None end
+  | [2; ri] => if 64 <? ri then None else Some (XBase (SReset (N.to_nat ri)))
+  | [3; ri; off; len] => if 64 <? ri then None else Some (XBase (SResetRange (N.to_nat ri) off len))
   | 4 :: ri :: rj :: doff :: dlen :: nch :: r =>
       if (64 <? ri) || (64 <? rj) || (64 <? nch) then None else
       match dec_chain (S (length r)) nch r with
-      | Some ch => Some (SCopy (N.to_nat ri) ch (N.to_nat rj) doff dlen)
+      | Some ch => Some (XBase (SCopy (N.to_nat ri) ch (N.to_nat rj) doff dlen))
       | None => None end
+  | 5 :: ri :: rk :: rx :: ry :: rz :: code :: a1 :: a2 :: a3 :: a4 :: nch :: r =>
+      if (64 <? ri) || (64 <? nch) then None else
+      match dec_sop code a1 a2 a3 a4, dec_chain (S (length r)) nch r with
+      | Some o, Some ch =>
+          if rk =? 3 then Some (XGm rx ry ch o)
+          else match dec_rootk rk rx ry rz with
+               | Some k => Some (XRoot (N.to_nat ri) k ch o)
+               | None => None end
+      | _, _ => None end
+  | [6; ri; code; a1; a2; a3; a4] =>
+      if 64 <? ri then None else
+      match dec_region_sop code a1 a2 a3 a4 with
+      | Some o => Some (XRegion (N.to_nat ri) o)
+      | None => None end
+  | 7 :: ri :: rk :: rx :: ry :: rz :: rj :: doff :: dlen :: nch :: r =>
+      if (64 <? ri) || (64 <? rj) || (64 <? nch) then None else
+      match dec_rootk rk rx ry rz, dec_chain (S (length r)) nch r with
+      | Some k, Some ch => Some (XCopyRoot (N.to_nat ri) k ch (N.to_nat rj) doff dlen)
+      | _, _ => None end
   | _ => None end.
 
 (* step kind for the checkers, derived from the case alone *)
@@ -85,7 +121,7 @@ Fixpoint dec_regions (n : nat) (l : list tok) : option (list region * list tok) 
                | None => None end
            | _ => None end
   end.
-Fixpoint dec_steps (l : list tok) : option (list step) :=
+Fixpoint dec_steps (l : list tok) : option (list xstep) :=
   match l with
   | [] => Some []
   | TL s :: r => match dec_step s, dec_steps r with Some x, Some xs => Some (x :: xs) | _, _ => None end
@@ -184,7 +220,10 @@ Definition dirty_suite (which : N) (inp obs : list tok) : verdict :=
                                      | TL [_; _; _; f], TL [_; _; _; f0] :: _ => f =? f0
                                      | _, _ => false end) (firstn (N.to_nat nreg) rest)) then malformed else
           match dec_steps rest', dec_obs (S (length obs)) (N.to_nat nreg) obs with
-          | Some ss, Some os =>
+          | Some xs, Some os =>
+              (* steps with another first accessor / on the region layer run as the base steps they are proved equal to
+                 (Proofs/C05Root.v: run_xhist_lower); the region geometry [lower] looks at never changes *)
+              let ss := map (lower rs) xs in
               let model := run_hist hostmod rs ss in
               let gs := map geom_of rs in
               let before := map (fun r => r_dirty r ++ [false; false]) rs in
